@@ -209,7 +209,7 @@ theorem LoopInv.second (s : Scanner) (hw : s.WF) (hp : s.pos < s.content.length)
   simpa using h1
 
 /-- the scanner after the first read reports the position of the first character -/
-theorem read_lc (s : Scanner) (hw : s.WF) (hp : s.pos < s.content.length) :
+theorem read_lc_lt (s : Scanner) (hw : s.WF) (hp : s.pos < s.content.length) :
     ((s.read).2.line, (s.read).2.col) = lcUpTo s.content (s.pos + 1) := by
   have h := (read_wf s hw).2
   rw [read_content, (read_pos_lt s hp).2] at h
@@ -291,21 +291,21 @@ theorem genericQuoteState_pos (f : Nat) (s : Scanner) (hw : s.WF) (hp : s.pos < 
     ((genericQuoteState f s).1.line, (genericQuoteState f s).1.col)
       = lcUpTo s.content (s.pos + 1) := by
   unfold genericQuoteState
-  exact read_lc s hw hp
+  exact read_lc_lt s hw hp
 
 theorem escQuoteState_pos (wordForDq : Bool) (f : Nat) (s : Scanner) (hw : s.WF)
     (hp : s.pos < s.content.length) :
     ((escQuoteState wordForDq f s).1.line, (escQuoteState wordForDq f s).1.col)
       = lcUpTo s.content (s.pos + 1) := by
   unfold escQuoteState
-  exact read_lc s hw hp
+  exact read_lc_lt s hw hp
 
 theorem specialState_pos (f : Nat) (s : Scanner) (hw : s.WF) (hp : s.pos < s.content.length) :
     ((specialState f s).1.line, (specialState f s).1.col) = lcUpTo s.content (s.pos + 1) := by
   unfold specialState
   show (s.peekLine, s.peekColumn) = lcUpTo s.content (s.pos + 1)
   rw [C11_peekLC_next s hp]
-  exact read_lc s hw hp
+  exact read_lc_lt s hw hp
 
 theorem cCommentState_pos (sym : Scanner → Tok × Scanner) (f : Nat) (s : Scanner) (hw : s.WF)
     (hp : s.pos < s.content.length)
@@ -315,7 +315,7 @@ theorem cCommentState_pos (sym : Scanner → Tok × Scanner) (f : Nat) (s : Scan
       = lcUpTo s.content (s.pos + 1) := by
   simp only [cCommentState]
   split
-  · exact read_lc s hw hp
+  · exact read_lc_lt s hw hp
   · exact hsym _ (unread_wf _ (unread_wf _ (read_wf _ (read_wf _ hw))))
       (by rw [unread_content, unread_content, read_content, read_content])
       (read_read_unread_unread_pos s hp)
